@@ -12,7 +12,7 @@ RULE = ("real is_functional_group on every (molecule, group, non-carbon atom) vs
         "renumbering of the atoms (all 25 groups); real pattern_match on every (molecule, atom, pattern) over all "
         "pattern / anti-pattern / group-atom structures whose elements include the atom's, judged by checking the "
         "returned mapping directly and by an independent backtracking sub-graph matcher for missed occurrences; "
-        "molecules = corpus sample + constructed small-ring / fused / hetero-aromatic molecules + molecules whose "
+        "molecules = corpus sample + constructed small-ring / fused / hetero-aromatic / non-six-membered aromatic (tropylium, azulene, annulene) molecules + molecules whose "
         "hydrogens are atoms of the graph (isotope-labelled H, Chem.AddHs); distinct "
         "non-trivial = distinct (molecule, atom, pattern) where the anchor's element occurs in the pattern")
 ASSUMPTIONS = ["atoms match on element symbol and bonds on RDKit bond type (what the library compares)",
@@ -31,7 +31,14 @@ CONSTRUCTED = [
     "N#CC#N", "N#CC1CC1", "NC1CC1", "N1CC1", "C1CN1C", "Nc1ccccc1", "Nc1ccccn1", "Nc1ccc[nH]1", "OCO", "OC(O)O",
     "OCOC", "C1OCOC1O", "OC1OCCO1", "C=CO", "OC=CC=CO", "OC1=CCC1", "C1=COC=C1", "C1=COCO1", "COC=C",
     "CC(O)=O", "OC(=O)C(O)=O", "O=C(O)C1CC1", "O=C1OC(=O)O1", "O=C(OC)OC", "OC(=O)OC", "CSC", "C1CSC1", "C1SCS1",
-    "CSCSC", "COC(=O)C1CC1C(=O)OC", "O=C1OC2CC1C2", "C12OC1O2" if False else "C1OC2CC1O2",
+    "CSCSC", "COC(=O)C1CC1C(=O)OC",
+    # aromatic rings that are not six-membered (an open six-atom aromatic path is not a benzene ring): tropylium,
+    # azulene perimeters, tropone / tropolone, cyclopentadienide, [14]annulene, linear and angular polycycles
+    "Oc1ccccc[cH+]1", "Nc1ccccc[cH+]1", "COc1ccccc[cH+]1", "Sc1ccccc[cH+]1", "Oc1ccc2cccc2cc1", "Oc1cc2cccccc2c1",
+    "Nc1ccc2cccc2cc1", "Nc1cc2cccccc2c1", "Oc1cccc2cccc2c1", "CC(=O)Oc1ccc2cccc2cc1", "O=c1cccccc1", "O=c1cccccc1O",
+    "Oc1ccc[cH-]1", "Nc1ccc[cH-]1", "Oc1ccccccccccccc1", "Nc1ccccccccccccc1", "Oc1ccc2ccc3cccc3cc2c1",
+    "Oc1cccc2ccccc12", "Oc1c2ccccc2cc2ccccc12", "Oc1ccc2cc3ccccc3cc2c1", "Oc1cccc2c1ccc1ccccc12", "Nc1cccc[o+]1",
+    "Oc1cccc[s+]1", "OC1=CC=CC=CC1", "OCc1ccccc[cH+]1", "NCc1ccc2cccc2cc1", "COc1ccc2cccc2cc1", "O=C1OC2CC1C2", "C12OC1O2" if False else "C1OC2CC1O2",
 ]
 
 
